@@ -310,6 +310,21 @@ LinearizableOn(p) ==
     \E o \in Orders(BitOpsOn(p)) :
         LET r == Replay(o, 1, BBit(InitMem.b, p)) IN r.ok /\ (r.bit <=> BBit(mem.b, p))
 
+\* the same for a final memory m and returned values rt that are not the
+\* current state (free-running executions: Trace_Atomic, event "free")
+RECURSIVE ReplayAt(_, _, _, _)
+ReplayAt(rt, o, k, b) ==
+    IF k > Len(o) THEN [ok |-> TRUE, bit |-> b]
+    ELSE LET j == JobOf(o[k])
+             sees == rt[o[k][1]][o[k][2]]
+             okk == (j.kind \in {"swapbit", "getbit"}) => sees = <<b>>
+             nb == IF j.kind = "getbit" THEN b ELSE BitVal(j)
+         IN  IF okk THEN ReplayAt(rt, o, k + 1, nb) ELSE [ok |-> FALSE, bit |-> b]
+
+LinearizableOnAt(p, m, rt) ==
+    \E o \in Orders(BitOpsOn(p)) :
+        LET r == ReplayAt(rt, o, 1, BBit(InitMem.b, p)) IN r.ok /\ (r.bit <=> BBit(m.b, p))
+
 SwapLinearizable == Quiescent => \A p \in {BitPos(JobOf(tk)) : tk \in BitJobs} : LinearizableOn(p)
 
 \* ----- the sequential execution ------------------------------------------
@@ -334,7 +349,32 @@ RECURSIVE RunAll(_, _)
 RunAll(m, t) == IF t > Len(I.prog) THEN m ELSE RunAll(RunProg(m, I.prog[t], 1), t + 1)
 
 AllPrivate == LET bw == BitsWritten IN \A tp \in bw : PrivateIn(bw, tp[2])
-EqualsSequential == (Quiescent /\ DistinctFields /\ AllPrivate) => mem = RunAll(InitMem, 1)
+
+\* The same memory in closed form (every written element holds the value of
+\* the last job of its only writer): linear in the size of the instance, for
+\* trace validation of large instances.  EqualsSequential makes TLC check
+\* that it is RunAll on every instance of the bounded models.
+DirectSeqMem ==
+    LET fj == {tk \in Jobs : JobOf(tk).kind \in FieldKinds}
+        bj == {tk \in Jobs : JobOf(tk).kind \in BitWKinds \cup {"efset"}}
+        lastf == [i \in {JobOf(tk).idx : tk \in fj} |->
+                    CHOOSE tk \in fj : /\ JobOf(tk).idx = i
+                                       /\ \A t2 \in fj : JobOf(t2).idx = i => t2[2] <= tk[2]]
+        lastb == [p \in {BitPos(JobOf(tk)) : tk \in bj} |->
+                    CHOOSE tk \in bj : /\ BitPos(JobOf(tk)) = p
+                                       /\ \A t2 \in bj : BitPos(JobOf(t2)) = p => t2[2] <= tk[2]]
+        m0 == InitMem
+    IN  [f |-> [k \in Low(I.nfw) |->
+                  {c \in Low(FW) : LET p == k * FW + c IN
+                       IF Width > 0 /\ (p \div Width) \in DOMAIN lastf
+                       THEN (p % Width) \in ValSet(JobOf(lastf[p \div Width]))
+                       ELSE c \in m0.f[k]}],
+         b |-> [k \in Low(I.nbw) |->
+                  {c \in Low(BW) : LET p == k * BW + c IN
+                       IF p \in DOMAIN lastb THEN BitVal(JobOf(lastb[p])) ELSE c \in m0.b[k]}]]
+
+EqualsSequential == (Quiescent /\ DistinctFields /\ AllPrivate) =>
+                        mem = RunAll(InitMem, 1) /\ mem = DirectSeqMem
 
 Termination == <>Quiescent
 =============================================================================
